@@ -162,7 +162,8 @@ def main():
     t0 = time.time()
     os.makedirs(TROOT, exist_ok=True)
     if not os.path.exists(os.path.join(SMOKE, "Cargo.lock")):
-        shutil.copy(os.path.join(REPO, "Cargo.lock"), os.path.join(SMOKE, "Cargo.lock"))
+        own = os.path.join(REPO, "Cargo.lock")
+        shutil.copy(own if os.path.exists(own) else os.path.join(VERIF, "harness", "Cargo.lock"), os.path.join(SMOKE, "Cargo.lock"))
     cfgs = configs(tier)
     results = explore(cfgs)
     by = {r["cfg"]: r for r in results}
@@ -233,4 +234,12 @@ def main():
 
 
 if __name__ == "__main__":
-    main()
+    try:
+        main()
+    except SystemExit:
+        raise
+    except BaseException as e:  # an engine crash is a machinery exit (2), never a verdict
+        import traceback
+        traceback.print_exc()
+        print("MACHINERY-ERROR: C20 engine crashed: %r" % (e,))
+        sys.exit(2)
